@@ -13,6 +13,7 @@ import (
 	"strings"
 
 	"github.com/makiuchi-d/gozxing"
+	"github.com/makiuchi-d/gozxing/datamatrix"
 	"github.com/makiuchi-d/gozxing/qrcode"
 	dmenc "github.com/makiuchi-d/gozxing/datamatrix/encoder"
 	"github.com/makiuchi-d/gozxing/qrcode/decoder"
@@ -213,7 +214,7 @@ func c13RunQR(c *Ctx, ref *c13Ref, r *Rng, k c13Case, suite string) {
 	}
 	c.Oracle(suite, goOut == want, key, op, "go="+goOut+" want="+want)
 	// rendered symbol: 17 + 4v modules plus the quiet zone on both sides (size 0x0 = one pixel per module)
-	if k.n >= 1 && k.n <= 300 && r.Chance(0.5) {
+	if k.n >= 1 && (k.n <= 300 || (c.Thorough && r.Chance(0.3))) && r.Chance(0.5) {
 		margin := []int{-1, 0, 1, 4, 7}[r.Intn(5)]
 		wh := map[gozxing.EncodeHintType]interface{}{gozxing.EncodeHintType_ERROR_CORRECTION: c07Levels[k.e]}
 		for hk, hv := range hints {
@@ -324,7 +325,8 @@ func runC13(c *Ctx) {
 	c.Rng = c.Rng.Fork() // decorrelate consecutive VERIF_SEEDs (NewRng(s) and NewRng(s+1) are the same stream shifted by one)
 	c.res.Rule = "QR: every mode x level x version boundary n = cap(v), cap(v)+1 (quick) / every length 1..cap(40)+1 (thorough), plain and with ECI/GS1 headers, " +
 		"forced versions (int/string/other hints, in and out of range, fitting and not), beyond version 40; " +
-		"Data Matrix: SymbolInfo_Lookup for ALL n in 0..1560 x 3 shapes x 31x31 (min,max) pairs from the symbol size list (exhaustive), both fail modes; " +
+		"Data Matrix: SymbolInfo_Lookup for ALL n in 0..1560 x 3 shapes x 44x44 (min,max) pairs (nil, the 30 symbol sizes, 13 off-list dimensions; exhaustive), both fail modes; " +
+		"DataMatrixWriter.Encode at size 0x0 for digit strings of every codeword-count class (capacity-1, capacity, capacity+1 of every symbol) x shape hint x (min,max) pairs (symbol sizes and off-list, non-square dimensions): rendered dimension == first admissible symbol; "+
 		"UpdateSymbolInfoByLength sequences; non-trivial = distinct op; oracle = smallest fitting version / smallest admissible symbol from the standard's formulae and size table"
 	ref, ok := c13LoadRef(c)
 	if !ok {
@@ -494,6 +496,10 @@ func runC13(c *Ctx) {
 	for i := range ref.dm {
 		dims = append(dims, &ref.dm[i])
 	}
+	// dimensions that are not symbol sizes (between sizes, non-square, tiny, huge)
+	for _, d := range [][2]int{{20, 10}, {19, 9}, {33, 9}, {30, 13}, {40, 20}, {17, 17}, {25, 25}, {50, 50}, {100, 100}, {150, 150}, {1, 1}, {8, 18}, {12, 36}} {
+		dims = append(dims, &c13Sym{w: d[0], h: d[1]})
+	}
 	type job struct{ shape, mi, xi int }
 	var jobs []job
 	for shape := 0; shape < 3; shape++ {
@@ -561,6 +567,82 @@ func runC13(c *Ctx) {
 		}
 	})
 	c.res.Exhaustive = true
+
+	// ---------- Data Matrix WRITER: rendered dimension at size 0x0 ----------
+	// digit strings: 2k digits are k ASCII codewords (digit pairs), whatever the symbol
+	var kClasses []int
+	{
+		seen := map[int]bool{}
+		for _, k := range []int{1, 2} {
+			seen[k] = true
+			kClasses = append(kClasses, k)
+		}
+		for _, s := range ref.dm {
+			for _, k := range []int{s.cap - 1, s.cap, s.cap + 1} {
+				if k >= 1 && k <= 1559 && !seen[k] {
+					seen[k] = true
+					kClasses = append(kClasses, k)
+				}
+			}
+		}
+	}
+	digits := strings.Repeat("0123456789", 312)
+	dmw := datamatrix.NewDataMatrixWriter()
+	c.Parallel(len(jobs), 16, func(i int, r *Rng) {
+		j := jobs[i]
+		sh, shName := c13Shape(j.shape)
+		mn, mx := dims[j.mi], dims[j.xi]
+		hints := map[gozxing.EncodeHintType]interface{}{}
+		if j.shape != 0 || r.Bool() {
+			hints[gozxing.EncodeHintType_DATA_MATRIX_SHAPE] = sh
+		}
+		if mn != nil {
+			hints[gozxing.EncodeHintType_MIN_SIZE] = c13Dim(mn)
+		}
+		if mx != nil {
+			hints[gozxing.EncodeHintType_MAX_SIZE] = c13Dim(mx)
+		}
+		ks := kClasses
+		if !c.Thorough {
+			// quick: the classes around the smallest admissible symbols of this constraint set + a few others
+			ks = nil
+			for _, k := range kClasses {
+				if _, found := ref.dmExpect(k, j.shape, mn, mx); (found && len(ks) < 7) || r.Intn(12) == 0 {
+					ks = append(ks, k)
+				}
+			}
+		}
+		for _, k := range ks {
+			content := digits[:2*k]
+			got := Safe(func() string {
+				bm, err := dmw.Encode(content, gozxing.BarcodeFormat_DATA_MATRIX, 0, 0, hints)
+				if err != nil {
+					return "ERR:" + errKind(err)
+				}
+				return fmt.Sprintf("%dx%d", bm.GetWidth(), bm.GetHeight())
+			})
+			// first admissible symbol in the reference table order
+			want := "ERR:writer"
+			for _, s := range ref.dm {
+				if k <= s.cap && ref.dmAdmissible(s.w, s.h, s.cap, j.shape, mn, mx) {
+					want = fmt.Sprintf("%dx%d", s.w, s.h)
+					break
+				}
+			}
+			op := fmt.Sprintf("c13 writer %d %s %s %s", k, shName, c13DimStr(mn), c13DimStr(mx))
+			c.Oracle("dm-writer", got == want, "dm-writer-dimension", op, "go="+got+" want="+want)
+			if k%7 == 0 || k < 30 {
+				c.Cmp("dm-writer", op, got)
+			}
+			if got == want {
+				if strings.HasPrefix(got, "ERR") {
+					c.Note("dm-writer:refused")
+				} else {
+					c.Note("dm-writer:" + shName)
+				}
+			}
+		}
+	})
 
 	// ---------- UpdateSymbolInfoByLength ----------
 	for it := 0; it < c.Pick(3000, 60000); it++ {
